@@ -21,3 +21,7 @@ claim("C12",
 claim("C13",
       "Decides one structural clause: no allocation is sized by a length or count taken from the wire unless a comparison of that length against a compile-time constant (or a constant-like package variable) dominates the allocating branch — interprocedural field-based taint over the decode scope (stream reader, envelope readers, frame reader), plus: lazy containers are built from a wire count only after the skip pass over that many items succeeded; the same rule on the generator's container Decoder/Reader templates when the template model is active. Does NOT decide that work is linear in N nor the numeric factor.",
       TRUST, "interprocedural taint (SSA) from wire lengths to allocation sizes with dominating constant-bound sanitizers", "DESIGN.md section 4 C13")
+
+claim("C09",
+      "Decides structural clauses only: every narrowing integer conversion of a source number in compile/gen/ast/idl (generated tables excluded) is dominated by tests of both bounds of the target type; ConstantInt.Link accepts a value for i8/i16/i32 only under that width's range test; every insertion into fields/items/functions/module tables is dominated by a successful namespace claim (and the used-id test for fields); claim fails iff the name is present. Does NOT decide implicit enum numbering arithmetic, parser overflow handling or self-reference (C08).",
+      TRUST, "SSA dominance-by-edge of range guards over narrowing conversions and accepting arms; insertion sites dominated by successful claim", "DESIGN.md section 4 C09")
